@@ -8,6 +8,7 @@ import (
 	"slices"
 	"strings"
 	"testing"
+	"time"
 
 	"github.com/ipfs/go-cid"
 	"github.com/ipfs/go-unixfsnode"
@@ -641,4 +642,100 @@ func firstCidDiff(a, b []cid.Cid) int {
 		}
 	}
 	return min(len(a), len(b)) + 1
+}
+
+// One goroutine's request for a child shard is held back by the store (a slow load) while another goroutine computes the
+// Length of the same fresh node: the blocks that second goroutine requests still come in depth-first link order - it
+// neither waits for the other's request nor works around it.
+func TestC20_R_LengthWhileAnotherUsersRequestIsHeld(t *testing.T) {
+	st := NewStore()
+	var es []entrySpec
+	for i := 0; i < 600; i++ {
+		es = append(es, entryFor(fmt.Sprintf("entry-%03d", i), 0))
+	}
+	root, _, err := buildSharded(st, es, 16)
+	if err != nil {
+		t.Fatal(err)
+	}
+	tree, err := st.ShardTree(root)
+	if err != nil {
+		t.Fatal(err)
+	}
+	shards := firstOccurrences(tree.ShardsPreOrder())
+	for _, which := range []int{0, len(shards) / 2} {
+		held := shards[which]
+		var through string
+		for _, e := range es {
+			if p := tree.HashPath(e.Name); len(p) > 0 && p[len(p)-1] == held {
+				through = e.Name
+				break
+			}
+		}
+		if through == "" {
+			continue
+		}
+		for _, op := range []string{"length", "iterate"} {
+			rn, err := loadReified(st.LinkSystem(), root, "unixfs")
+			if err != nil {
+				t.Fatal(err)
+			}
+			// the other user first walks down to the held shard's parent, then asks for the held shard and is kept waiting
+			release := make(chan struct{})
+			st.Park, st.ParkedNow = map[cid.Cid]chan struct{}{held: release}, nil
+			st.ResetLogs()
+			otherDone := make(chan error, 1)
+			go func() {
+				_, err := rn.LookupByString(through)
+				otherDone <- err
+			}()
+			for i := 0; ; i++ {
+				st.mu.Lock()
+				requested := len(st.ParkedNow) > 0
+				st.mu.Unlock()
+				if requested {
+					break
+				}
+				if i > 5000 {
+					t.Fatalf("harness: the lookup never asked for shard %s", held)
+				}
+				time.Sleep(time.Millisecond)
+			}
+			already := cidSet(st.ReadLog()) // (what the other user's lookup loaded on its way down)
+			st.ResetLogs()
+			mine := make(chan []cid.Cid, 1)
+			go func() {
+				if op == "length" {
+					_ = rn.Length()
+				} else {
+					for it := rn.MapIterator(); !it.Done(); {
+						if _, _, err := it.Next(); err != nil {
+							break
+						}
+					}
+				}
+				mine <- st.ReadLog()
+			}()
+			var log []cid.Cid
+			select {
+			case log = <-mine:
+			case <-time.After(20 * time.Second):
+				close(release)
+				t.Fatalf("C20: %s on a node while another goroutine's request for shard #%d is held back did not return within 20 s", op, which)
+			}
+			close(release)
+			if err := <-otherDone; err != nil {
+				t.Fatalf("C20: the held-back lookup failed after its block arrived: %v", err)
+			}
+			st.Park = nil
+			var want []cid.Cid
+			for _, c := range shards {
+				if !already[c] {
+					want = append(want, c)
+				}
+			}
+			if got := firstOccurrences(log); !slices.Equal(got, want) {
+				t.Fatalf("C20: %s while another goroutine's request for shard #%d of %d is held back: this goroutine's requests %v are not the depth-first walk of the shards still to be loaded (first difference at #%d of %d)", op, which, len(shards), shortCids(got[:min(len(got), 8)]), firstCidDiff(got, want), len(want))
+			}
+		}
+	}
 }
